@@ -459,14 +459,23 @@ def execute(prop, case):
 
 
 def clock_hyp(case, clock):
-    """hypotheses of C06_clock for one clock: every reading on a day before the project start day, and before the
-    day of every user-fixed start that has no fixed end (findings S6, S7)"""
+    """hypotheses of C06_clock_partial (`ClockHyp`) for one clock: every reading not later than the project start; on a day before
+    the day of every user-fixed start that has no fixed end; and, when a leaf with unfixed start has no work left, not later than the
+    midnight of the project start's day (what remains of finding S6 after the repair of the end clamp)"""
     day = lambda us: us // DAY_US
-    if any(day(c) >= day(case['bound']) for c in clock):
+    if any(c > case['bound'] for c in clock):
         return False
-    for t in case['tasks']:
-        if t['member'] and t['start'] is not None and t['end'] is None:
+    has_child = set(t['parent'] for t in case['tasks'] if t['parent'] is not None)
+    for i, t in enumerate(case['tasks']):
+        if not t['member']:
+            continue
+        if t['start'] is not None and t['end'] is None:
             if any(day(c) >= day(t['start']) for c in clock):
+                return False
+        if i not in has_child and not t['ms'] and t['start'] is None and t['end'] is None:
+            est = Fraction(t['est']) if t['est'] is not None else Fraction(case['defaultEst'])
+            sp = Fraction(t['spent']) if t['spent'] is not None else 0
+            if est - sp <= 0 and any(c > day(case['bound']) * DAY_US for c in clock):
                 return False
     return True
 
@@ -547,7 +556,7 @@ MON_OF = {
 # hypotheses of the proved `_partial` theorems, per failing clause (a failure outside them is a finding candidate)
 HYP_OF = {
     'C02': {'c02Leaf': ['noSummaryLinks', 'outsideLeaves'], 'c02Milestone': ['noSummaryLinks', 'outsideLeaves']},
-    'C08': {'c08NoIdle': ['noSummaryLinks', 'outsideLeaves'], 'c08Encode': ['clockBeforeStartDay'], 'c08Order': [], 'c08Removal': ['noSummaryLinks']},
+    'C08': {'c08NoIdle': ['noSummaryLinks', 'outsideLeaves'], 'c08Encode': [], 'c08Order': [], 'c08Removal': ['noSummaryLinks']},
     'C09': {'c09Deadline': [], 'c09Deps': ['noSummaryLinks'], 'c09LatePacked': ['noSummaryLinks'], 'c09Encode': ['noSummaryLinks']},
     'C06': {'clockIndep': ['clockHyp']},
 }
